@@ -158,6 +158,16 @@ func init() {
 				}
 			}
 		}
+		if only, ok := spec.Opt["only_tokens"].([]any); ok {
+			for _, t := range only {
+				seq = append(seq, fmt.Sprint(t))
+			}
+			for _, t := range seq {
+				e.Extend(t)
+			}
+			check()
+			return
+		}
 		check()
 		var walk func(d int)
 		walk = func(d int) {
